@@ -250,7 +250,7 @@ def summarise(records, tier, seed):
         "evaluations": ag["evaluations"],
         "distinct_nontrivial": len(ag["hashes"]),
         "rule": "random 2-4 component models with cross-dependencies in both directions + ORdmm_Land (the documented example); every component (with states on both sides) chosen as the split; "
-        "sub-models generated as documented (missing_values=other.missing_variables), fed the full model's values for their missing variables; evaluation = one generated call of a sub-model "
+        "sub-models generated as documented (missing_values=other.missing_variables), fed the full model's values for their missing variables; in two cases of three the same mapping object is first handed to another translation and must come back unchanged; evaluation = one generated call of a sub-model "
         "(rhs, monitor_values, explicit_euler, missing_values) or one compile of the C sub-model; non-trivial = >= 1 split and >= 4 values compared with the reference of the FULL text; distinct by (hash, backend)",
         "samples": C.pick_samples(records),
         "per_class_cases": ag["classes"],
